@@ -129,7 +129,7 @@ class ConnectionModel:
     add_task call), .cancelled (cancel_key_tasks keys), .events (what the event handler was told), .transport (its
     .attrs['closed'] counts close() calls), .protocol (the object the protocol factory built), .spa"""
 
-    def __init__(self, repo, connect=True, answer=None):
+    def __init__(self, repo, connect=True, answer=None, on_suspend=None):
         """answer(request object) -> reply object | None: what the model protocol's get() gives back for the request its
         factory builds (default: nobody answers)"""
         from .absint import BoundMethod, ClassRef, Closure, Interp, Native, Obj, PyRaise, Undecided
@@ -155,12 +155,17 @@ class ConnectionModel:
                 if cm is not None:
                     it.call(cm, proto, [transport])
                 def _get(a2, k2):
+                    if on_suspend is not None:
+                        on_suspend("protocol.get")
                     if answer is None:
                         return None       # nobody answers: _connect gives up at its first request
                     req = it.apply(a2[0], [], {}) if a2 else None
                     return answer(req)
                 proto.attrs["get"] = Native(_get, "get")
             self.protocol = proto
+            self.endpoints = getattr(self, "endpoints", 0) + 1
+            if on_suspend is not None:
+                on_suspend("create_datagram_endpoint")     # the endpoint exists, the awaiting coroutine has not got it yet
             return (transport, proto)
         loop = Obj(None, {"create_future": Native(lambda a, k: Obj(None, {"done": Native(lambda a2, k2: False), "set_result": Native(lambda a2, k2: None)}, name="future")),
                           "create_datagram_endpoint": Native(endpoint, "create_datagram_endpoint")}, name="loop")
@@ -171,13 +176,19 @@ class ConnectionModel:
             if nm in ("asyncio.get_running_loop", "asyncio.get_event_loop"):
                 return loop
             if nm == "asyncio.sleep":
+                if on_suspend is not None and not getattr(self, "probing", False):
+                    on_suspend("asyncio.sleep")
                 return None
             if nm in ("time.monotonic",):
                 return 100.0
+            if nm == "asyncio.current_task":
+                return Obj(None, {"get_name": Native(lambda a, k: "model-task", "get_name"), "cancel": Native(lambda a, k: None, "cancel")}, name="current-task")
+            if getattr(self, "probing", False):
+                return NotImplemented        # a started coroutine is being stepped: its calls are interpreted, not recorded
             if isinstance(callee, BoundMethod) and callee.fi.name == "consume":
-                return Obj(None, {"kind": "consume", "handler": callee.obj}, name="coroutine<consume>")
+                return Obj(None, {"kind": "consume", "handler": callee.obj, "args": list(args)}, name="coroutine<consume>")
             if isinstance(callee, BoundMethod) and spa_box and callee.obj is spa_box[0] and callee.fi.is_async and callee.fi.name not in ("_connect", "disconnect", "connect"):
-                return Obj(None, {"kind": "coroutine", "method": callee.fi.name}, name=f"coroutine<{callee.fi.name}>")
+                return Obj(None, {"kind": "coroutine", "method": callee.fi.name, "args": list(args)}, name=f"coroutine<{callee.fi.name}>")
             return NotImplemented
         it.call_hook = hook
         try:
